@@ -10,7 +10,9 @@
 // prio[k] = k.
 //
 // d-ary heap ops:  push k | pop | top | xtop | size | empty | clear | sanity | drain
-//                  build <it|cv|mv> k,k,..   (the three build_heap overloads; on ANY heap state)
+//                  build <it|dq|li|fl|sp|cv|mv> k,k,..   (build_heap(first,last) over vector / deque / list /
+//                  forward_list / a genuine single-pass input iterator; build_heap(const vector&);
+//                  build_heap(vector&&); on ANY heap state)
 //                  setp k:p,k:p,..           (change priorities of keys NOT in the heap)
 //                  reprio k:p,..             (change priorities, then update_all())
 // addressable:     additionally  remove k | contains k | upd k p (prio[k]=p; update(k))
@@ -48,6 +50,10 @@
 #include <vector>
 
 #include <csignal>
+#include <deque>
+#include <forward_list>
+#include <iterator>
+#include <list>
 #include <sys/time.h>
 #include <unistd.h>
 
@@ -174,6 +180,59 @@ static std::string show_vec(const V& v) {
     return os.str();
 }
 
+// ------------------------------------------------------------------ iterator kinds for build_heap(first, last)
+// A genuine single-pass input iterator: all copies share one source, every increment consumes from it and
+// invalidates the other copies; dereferencing or incrementing an invalidated copy is an error (this is what a
+// second traversal of the range, e.g. std::distance followed by std::copy, does).
+template <typename K>
+struct SinglePassIt {
+    using iterator_category = std::input_iterator_tag;
+    using value_type = K;
+    using difference_type = std::ptrdiff_t;
+    using pointer = const K*;
+    using reference = const K&;
+    struct Src { std::deque<K> q; size_t gen = 0; };
+    std::shared_ptr<Src> src;   // null = the end sentinel
+    size_t gen = 0;
+    struct Proxy { K v; const K& operator*() const { return v; } };
+
+    SinglePassIt() = default;
+    explicit SinglePassIt(const std::vector<K>& v) : src(std::make_shared<Src>()) { for (auto& x : v) src->q.push_back(x); }
+    bool at_end() const { return !src || src->q.empty(); }
+    void valid(const char* what) const {
+        if (src && gen != src->gen && g_move_errors.size() < 4)
+            g_move_errors.push_back(std::string(what) + " an invalidated copy of a single-pass input iterator (range traversed twice)");
+    }
+    reference operator*() const {
+        valid("dereference of");
+        static const K dflt{};
+        if (at_end()) { if (g_move_errors.size() < 4) g_move_errors.push_back("dereference of the end of a single-pass range"); return dflt; }
+        return src->q.front();
+    }
+    SinglePassIt& operator++() {
+        valid("increment of");
+        if (src && !src->q.empty()) { src->q.pop_front(); gen = ++src->gen; }
+        return *this;
+    }
+    Proxy operator++(int) { Proxy p{**this}; ++*this; return p; }
+    friend bool operator==(const SinglePassIt& a, const SinglePassIt& b) { return a.at_end() == b.at_end(); }
+    friend bool operator!=(const SinglePassIt& a, const SinglePassIt& b) { return !(a == b); }
+};
+
+// build_heap(first, last) through the iterator kind named by `how`:
+//   it = vector (random access), dq = deque (non-contiguous random access), li = list (bidirectional),
+//   fl = forward_list (forward only), sp = single-pass input iterator.  false = unknown kind.
+template <typename H, typename K>
+static bool build_range(H& h, const std::string& how, const std::vector<K>& v) {
+    if (how == "it") h.build_heap(v.begin(), v.end());
+    else if (how == "dq") { std::deque<K> c(v.begin(), v.end()); h.build_heap(c.begin(), c.end()); }
+    else if (how == "li") { std::list<K> c(v.begin(), v.end()); h.build_heap(c.begin(), c.end()); }
+    else if (how == "fl") { std::forward_list<K> c(v.begin(), v.end()); h.build_heap(c.begin(), c.end()); }
+    else if (how == "sp") { h.build_heap(SinglePassIt<K>(v), SinglePassIt<K>()); }
+    else return false;
+    return true;
+}
+
 // ------------------------------------------------------------------ DAryHeap
 template <typename K, unsigned Arity>
 struct DaryH : IHeap {
@@ -252,10 +311,9 @@ struct DaryH : IHeap {
             std::vector<K> v;
             std::multiset<unsigned> nr;
             for (long long k : ks) { if (k < 0 || k >= static_cast<long long>(U)) { vh::answer("bad-op"); return; } v.push_back(T::make(static_cast<unsigned>(k))); nr.insert(static_cast<unsigned>(k)); }
-            if (t[1] == "it") h.build_heap(v.begin(), v.end());
-            else if (t[1] == "cv") h.build_heap(v);
+            if (t[1] == "cv") h.build_heap(v);
             else if (t[1] == "mv") { std::vector<K> w = v; h.build_heap(std::move(w)); }
-            else { vh::answer("bad-op"); return; }
+            else if (!build_range(h, t[1], v)) { vh::answer("bad-op"); return; }
             ref = nr;
         }
         else if ((o == "setp" || o == "reprio") && t.size() == 2) {
@@ -292,6 +350,7 @@ struct AddrH : IHeap {
     }
 
     void check(const std::string& line) {
+        drain_move_errors("addr", line);
         if (h.size() != ref.size()) vh::viol("addr size " + std::to_string(h.size()) + " != reference " + std::to_string(ref.size()) + " after " + line);
         if (h.empty() != ref.empty()) vh::viol("addr empty() wrong after " + line);
         std::multiset<unsigned> got(h.heap_.begin(), h.heap_.end());
@@ -384,10 +443,9 @@ struct AddrH : IHeap {
                 s.insert(static_cast<unsigned>(k));
                 v.push_back(static_cast<KT>(k));
             }
-            if (t[1] == "it") h.build_heap(v.begin(), v.end());
-            else if (t[1] == "cv") h.build_heap(v);
+            if (t[1] == "cv") h.build_heap(v);
             else if (t[1] == "mv") { std::vector<KT> w = v; h.build_heap(std::move(w)); }
-            else { vh::answer("bad-op"); return; }
+            else if (!build_range(h, t[1], v)) { vh::answer("bad-op"); return; }
             ref = s;
         }
         else if ((o == "setp" || o == "reprio") && t.size() == 2) {
